@@ -3,22 +3,8 @@ From XV Require Import Lib.Sx Model.Recv.
 Import ListNotations.
 Open Scope N_scope.
 
-(* a stream error is handed to the router twice (once synchronously, once by the
-   ordinary path); everything else exactly once *)
-Fixpoint expand (l : list item) : list item :=
-  match l with
-  | [] => []
-  | i :: l' => match i with IStreamError _ => i :: i :: expand l' | _ => i :: expand l' end
-  end.
-
-Lemma filter_stanza_expand l : filter is_stanza (expand l) = filter is_stanza l.
-Proof.
-  induction l as [|i l IH]; [reflexivity|].
-  destruct i; cbn; rewrite ?IH; reflexivity.
-Qed.
-
 Lemma crecv_routed items : forall inb nw wf,
-  routed (crecv inb nw wf items) = expand (processed nw wf items).
+  routed (crecv inb nw wf items) = processed nw wf items.
 Proof.
   induction items as [|i items IH]; intros inb nw wf; [reflexivity|].
   destruct i; cbn [crecv processed]; try reflexivity.
@@ -32,7 +18,7 @@ Qed.
 
 Lemma crecv_stanzas_once items inb nw wf :
   filter is_stanza (routed (crecv inb nw wf items)) = filter is_stanza (processed nw wf items).
-Proof. rewrite crecv_routed. apply filter_stanza_expand. Qed.
+Proof. rewrite crecv_routed. reflexivity. Qed.
 
 Lemma crecv_answers items : forall inb nw wf,
   answers (crecv inb nw wf items) = expected_answers inb (processed nw wf items).
@@ -154,8 +140,8 @@ Proof.
       apply (Hstep inb nw [ARouteAsync (INonza tag)] (INonza tag)); try reflexivity.
       intros a [<-|[]]; split; reflexivity.
     + (* stream error *)
-      apply (Hstep inb nw [ARouteSync (IStreamError tag); AEvStreamError; AErrCall; ADisconnectCall; ARouteAsync (IStreamError tag)] (IStreamError tag)); try reflexivity.
-      intros a [<-|[<-|[<-|[<-|[<-|[]]]]]]; split; reflexivity.
+      apply (Hstep inb nw [ARouteSync (IStreamError tag); AEvStreamError; AErrCall; ADisconnectCall] (IStreamError tag)); try reflexivity.
+      intros a [<-|[<-|[<-|[<-|[]]]]]; split; reflexivity.
     + (* close *)
       cbn -[N.add]. repeat split; try reflexivity. right; right; left. f_equal. lia.
     + (* bad *)
@@ -163,11 +149,11 @@ Proof.
 Qed.
 
 (* ---- component ---- *)
-Lemma precv_routed items : routed (precv items) = expand (pprocessed items).
+Lemma precv_routed items : routed (precv items) = pprocessed items.
 Proof.
   induction items as [|i items IH]; [reflexivity|].
   destruct i; cbn [precv pprocessed]; try reflexivity;
-    cbn [routed flat_map app expand]; fold (routed (precv items)); rewrite IH; reflexivity.
+    cbn [routed flat_map app]; fold (routed (precv items)); rewrite IH; reflexivity.
 Qed.
 
 Definition all_sync (tr : list action) : bool :=
